@@ -81,8 +81,60 @@ enum LC {
     I(IntCounter, Vec<Option<LocalIntCounter>>),
 }
 
+/// Float local counters with amounts far from the everyday integers: a batch however small (or however
+/// large) is handed over exactly, through a scalar local counter and through a local vector child.
+fn extreme_amounts(cx: &mut Ctx, rng: &mut Rng) {
+    let amount = *rng.pick(&[1e-17, 5e-324, 1e-300, f64::EPSILON / 2.0, f64::EPSILON, 1e-9, 0.1, 1e300, 9007199254740993.0]);
+    let twice = rng.chance(1, 2);
+    let via_vec = rng.chance(1, 2);
+    cx.part.evaluations += 1;
+    cx.part.count("extreme_amount_batches", 1);
+    let log = vec![format!("{} local float counter: inc_by({:e}){}, flush, flush", if via_vec { "vector child of a" } else { "scalar" }, amount, if twice { " twice" } else { "" })];
+    let want = if twice { amount + amount } else { amount };
+    let (shared, local_after, shared_after_second) = if via_vec {
+        let v = CounterVec::new(Opts::new("c12_tiny_v", "h"), &["l"]).unwrap();
+        let mut lv = v.local();
+        lv.with_label_values(&["x"]).inc_by(amount);
+        if twice {
+            lv.with_label_values(&["x"]).inc_by(amount);
+        }
+        if amount > 1.0 {
+            lv.flush();
+        } else {
+            lv.with_label_values(&["x"]).flush();
+        }
+        let s = v.with_label_values(&["x"]).get();
+        let la = lv.with_label_values(&["x"]).get();
+        lv.with_label_values(&["x"]).flush();
+        lv.flush();
+        (s, la, v.with_label_values(&["x"]).get())
+    } else {
+        let c = Counter::new("c12_tiny", "h").unwrap();
+        let l = c.local();
+        l.inc_by(amount);
+        if twice {
+            l.inc_by(amount);
+        }
+        l.flush();
+        let s = c.get();
+        let la = l.get();
+        l.flush();
+        (s, la, c.get())
+    };
+    if shared.to_bits() != want.to_bits() {
+        fail(cx, "flush-did-not-hand-over-the-accumulated-amount", "LocalCounter/extreme-amount", format!("after the flush the shared counter reads {:e}, the batch was {:e}", shared, want), &log);
+    } else if local_after != 0.0 {
+        fail(cx, "local-counter-reads-wrong-amount", "LocalCounter/extreme-amount", format!("after the flush the local counter still reads {:e}", local_after), &log);
+    } else if shared_after_second.to_bits() != want.to_bits() {
+        fail(cx, "second-flush-added-something", "LocalCounter/extreme-amount", format!("a second flush changed the shared counter from {:e} to {:e}", want, shared_after_second), &log);
+    }
+}
+
 fn counters(cx: &mut Ctx, rng: &mut Rng) {
     let float = rng.chance(1, 2);
+    if float && rng.chance(1, 4) {
+        extreme_amounts(cx, rng);
+    }
     let site = if float { "LocalCounter" } else { "LocalIntCounter" };
     let mut w = if float { LC::F(Counter::new("c12_c", "h").unwrap(), vec![]) } else { LC::I(IntCounter::new("c12_c", "h").unwrap(), vec![]) };
     let mut shared: u64 = 0;
